@@ -14,7 +14,10 @@ random; JSON-serialisable, the replay artefact):
                       | "type_missing" | "type_unknown",                      (defects)
                 "by":   pool name | "root" | "ghost",
                 "ok":   bool   (should the link verify)}, ...]}
-Pool names are "a".."h"; a rendering maps them to real element names.
+Pool names are "a".."h" plus "root": a rendering maps them to real element names; the pool name
+"root" is the RESERVED name of the root of trust carried by an element ("sgx_root" in a version-2
+rendering - accepted by the loader; "root" in a version-1 rendering - not a valid version-1 element
+name, so the document must be refused).  `by: "root"` always means "signed by the root of trust".
 
 Independent of repository code: version-1 payloads come from harness/certv1.py; version-2 payloads
 (X.509 certificates, SGX report bodies / quotes with their report_data bindings, ECDSA P-256
@@ -106,7 +109,7 @@ def render_v1(doc):
     items = doc["items"]
     spec_items, meta = [], []
     for j, it in enumerate(items):
-        nm = pmap.get(it["name"], rng.choice(names))
+        nm = rng.choice(names) if it["name"] == "root" else pmap.get(it["name"], rng.choice(names))
         by = it["by"]
         rby = "root" if by == "root" else pmap[by] if by in pmap else ghost_value(rng, "sgx_root")
         e = {"name": nm, "signed_by": rby, "compressed": rng.random() < 0.4}
@@ -136,8 +139,8 @@ def render_v1(doc):
             ch.corrupt(rng.choice(kinds), j, rng)
     for j, it in enumerate(items):
         e = ch.cert["elements"][j]
-        pairs = [("name", e["name"]), ("message", e["message"]), ("signature", e["signature"]),
-                 ("signed_by", e["signed_by"])]
+        pairs = [("name", "root" if it["name"] == "root" else e["name"]), ("message", e["message"]),
+                 ("signature", e["signature"]), ("signed_by", e["signed_by"])]
         if "tweak" in e:
             pairs.append(("tweak", e["tweak"]))
         fld = it["fld"]
@@ -168,10 +171,11 @@ def render_v1(doc):
         elif it["name"] == "nondict":
             o = rng.choice(["ui", 5, None, ["name"], [["name", "ui"]], True, "name", 1.5])
         els.append(o)
-    target_names = [pmap[t] if t in pmap else ghost_value(rng, "root") for t in doc["targets"]]
+    target_names = ["root" if t == "root" else pmap[t] if t in pmap else ghost_value(rng, "root")
+                    for t in doc["targets"]]
     text = _top(doc, rng, 1, 2, target_names, els)
     return {"text": text, "root": ch.root_hex, "pmap": pmap, "sub": meta,
-            "names": [pmap.get(it["name"], "") for it in items]}
+            "names": ["root" if it["name"] == "root" else pmap.get(it["name"], "") for it in items]}
 
 
 def _top(doc, rng, version, other_version, target_names, els):
@@ -268,6 +272,7 @@ def render_v2(doc):
     names = list(V2_NAMES)
     rng.shuffle(names)
     pmap = {p: names[i] for i, p in enumerate(POOL)}
+    pmap["root"] = "sgx_root"          # an ELEMENT that carries the reserved name of the root of trust
     items = doc["items"]
     n = len(items)
     root_key = _p256(rng)
@@ -290,6 +295,7 @@ def render_v2(doc):
     for j, it in enumerate(items):
         by = it["by"]
         rby = "sgx_root" if by == "root" else pmap[by] if by in pmap else ghost_value(rng, "root")
+        # `signed_by: sgx_root` is signed by the root of trust, also when an element has that name
         pkey = root_key if by == "root" else keys[last[by]] if by in last else stranger
         nm = pmap.get(it["name"], rng.choice(names))
         fld, typ, ok = it["fld"], types[j], it["ok"]
@@ -429,13 +435,13 @@ def docs_from_behaviour(b, rng):
     flavours = ["v1", "v2"] if b["flavour"] == "any" else [b["flavour"]]
     docs = []
     for fl in flavours:
-        pool = POOL[:4]
+        pool = POOL[:4] + ["root"]          # the model's pool: four names and the reserved root name
         items = []
         for j, it in enumerate(b["items"]):
             by = b["by"][j]
             ok = b["ok"][j]
             items.append({"name": it["name"], "fld": it["fld"],
-                          "by": by if by != "?" else rng.choice(pool + ["root", "root", "ghost"]),
+                          "by": by if by != "?" else rng.choice(pool + ["root", "ghost"]),
                           "ok": (ok == "t") if ok != "?" else rng.random() < 0.6})
         defect = b["phase"] == "error" and items and (items[-1]["name"] not in pool or items[-1]["fld"] not in LOADABLE
                                                       or b["ver"] == "swapped")
@@ -466,6 +472,28 @@ def directed_docs(rng):
                          for i, (n, t, by) in enumerate(v2)]
                 docs.append({"flavour": "v2", "seed": rng.randrange(1 << 62), "ver": "ok", "tgtc": "list",
                              "elsc": "list", "targets": [tgt], "items": items, "src": "directed"})
+    # an element that carries the reserved name of the root of trust: self-signed, mutually signed with an
+    # element on the target's path, signed by a normal element (on / off the path), dangling; as a
+    # bystander and as a target; every element type
+    chain = [("a", "sgx_quote", "b"), ("b", "sgx_attestation_key", "c"), ("c", "x509_pem", "root")]
+    shapes = [("self-signed", chain, "root"),
+              ("mutual-with-path-top", chain, "c"),
+              ("signed-by-path-element", chain, "b"),
+              ("signed-by-leaf", chain, "a"),
+              ("dangling", chain, "ghost"),
+              ("mutual-with-target", [("a", "sgx_quote", "root")], "a"),
+              ("mutual-two", [("a", "sgx_attestation_key", "root"), ("b", "sgx_quote", "a")], "b")]
+    for fl in ("v2", "v1"):
+        for _, base, rby in shapes:
+            for rtype in ("x509_pem", "sgx_attestation_key", "sgx_quote"):
+                for pos in (0, len(base)):
+                    for tgts in (["a"], ["root"], [base[-1][0], "root"]):
+                        items = [{"name": n, "type": t, "by": by, "fld": "ok", "ok": True} for n, t, by in base]
+                        items.insert(pos, {"name": "root", "type": rtype, "by": rby, "fld": "ok", "ok": True})
+                        docs.append({"flavour": fl, "seed": rng.randrange(1 << 62), "ver": "ok", "tgtc": "list",
+                                     "elsc": "list", "targets": tgts, "items": items, "src": "directed"})
+                if fl == "v1":
+                    break
     v1 = [("a", "b"), ("b", "c"), ("c", "d"), ("d", "root")]
     for j in range(4):
         for fld in ("ok", "long", "short", "odd", "extra"):
@@ -497,6 +525,8 @@ def random_doc(rng):
     (defective items, dangling signers)."""
     fl = rng.choice(["v1", "v2"])
     pool = POOL[:rng.choice([2, 3, 4, 4, 6, 8])]
+    if rng.random() < 0.3:
+        pool = pool + ["root"]             # some element may carry the reserved name of the root of trust
     n = rng.choice([1, 2, 3, 4, 5, 6, 8, 10, 12, 12])
     style = rng.choice(["chain", "chain", "chain", "free", "free", "messy"])
     items = [_random_item(rng, pool, {"chain": 0.0, "free": 0.01, "messy": 0.12}[style], fl) for _ in range(n)]
@@ -594,9 +624,26 @@ NONE_OBS = {"outcome": "none", "root": "", "targets": [], "graph": [], "val": "n
             "cls": ""}
 
 
+_limited = False
+
+
+def _limit_memory():
+    """A walk that never ends may also grow a list without bound: cap the worker's address space so that
+    the machine is not exhausted before the watchdog fires (the MemoryError is then the observation)."""
+    global _limited
+    if not _limited:
+        _limited = True
+        try:
+            import resource
+            resource.setrlimit(resource.RLIMIT_AS, (3 << 30, 3 << 30))
+        except Exception:
+            pass
+
+
 def execute(job):
     """Worker entry: job = (doc, scratch dir) -> observation record."""
     doc, scratch = job
+    _limit_memory()
     pid = os.getpid()
     stage_path = os.path.join(scratch, "stage_%d" % pid)
     _stage(stage_path, "render")
